@@ -100,8 +100,23 @@ impl<K, V> OrderedQueue<K, V> {
         self.map.remove(&self.next)
     }
 
-    pub fn progress_to(&mut self, next: K) {
+    /// Moves the next expected key forward. Entries left below it can never be popped any more
+    /// (e.g. a write keyed inside the range of a multi-event transaction that was just
+    /// applied); they are removed and returned so that the caller can answer them.
+    pub fn progress_to(&mut self, next: K) -> Vec<(K, V)>
+    where
+        K: Ord,
+    {
+        let mut skipped = Vec::new();
+        while let Some(entry) = self.map.first_entry() {
+            if entry.key() < &next {
+                skipped.push(entry.remove_entry());
+            } else {
+                break;
+            }
+        }
         self.next = next;
+        skipped
     }
 
     pub fn next(&self) -> &K {
